@@ -144,6 +144,11 @@ def install_tree_contracts(I, ctx):
     def tree_fqn_contract(i, path, args, kw):
         from pyvc.values import SeqV, SeqT
         return SeqV(SeqT(tuple(fqn_items(i, args[0], path))))
+    def fqn_contract(i, path, args, kw):
+        # contract proved under C14: fqn.items == tree_fqn(self)
+        from pyvc.values import ObjV, SeqV, SeqT
+        return ObjV(NS, {'items': SeqV(SeqT(tuple(fqn_items(i, args[0], path))))})
+    I.overrides['dznpy.scoping.NamespaceTree.fqn'] = fqn_contract
     I.overrides['dznpy.scoping.NamespaceTree.fqn_member_name'] = fqn_member_name_contract
     I.overrides['specs.scoping.tree_fqn'] = tree_fqn_contract
     ctx.assumptions.append('callee by contract: NamespaceTree.fqn_member_name(m).items == tree_fqn(self) ++ m.items '
@@ -215,6 +220,7 @@ def run(ctx: Ctx, only=None):
         I.class_invs.update(saved)
         I.rec_invs = {}
         I.overrides.pop('dznpy.scoping.NamespaceTree.fqn_member_name', None)
+        I.overrides.pop('dznpy.scoping.NamespaceTree.fqn', None)
         I.overrides.pop('specs.scoping.tree_fqn', None)
 
 
@@ -409,7 +415,7 @@ def run_documents(ctx: Ctx, parts=('parse_element', 'process')):
         I.class_invs.clear()
         I.class_invs.update(saved)
         I.rec_invs = {}
-        for q in (f'{JA}.DznJsonAst.parse_element', 'specs.parse_spec.decls_of',
+        for q in (f'{JA}.DznJsonAst.parse_element', 'specs.parse_spec.decls_of', 'dznpy.scoping.NamespaceTree.fqn',
                   'dznpy.scoping.NamespaceTree.fqn_member_name', 'specs.scoping.tree_fqn'):
             I.overrides.pop(q, None)
 
@@ -658,6 +664,7 @@ def run_any_json(ctx: Ctx, only=None):
             I.overrides.pop(f'{JA}.{fname}', None)
         I.overrides.pop(f'{JA}.DznJsonAst.parse_element', None)
         I.overrides.pop('dznpy.scoping.NamespaceTree.fqn_member_name', None)
+        I.overrides.pop('dznpy.scoping.NamespaceTree.fqn', None)
         I.overrides.pop('specs.scoping.tree_fqn', None)
         I.class_invs.clear()
         I.class_invs.update(saved)
